@@ -1,9 +1,89 @@
-import XsdataModel.Samples.Reduce
+/- C13 — property theorems (only). Helper lemmas: Proofs/SamplesReduce.lean,
+   Proofs/SamplesOccur.lean. -/
+import XsdataModel.Proofs.SamplesOccur
 
 namespace Props.C13
 open Py Xs.Samples
 
 /-- every name in the live `__EXPLICIT_TYPES__` is a type the model knows -/
 theorem explicit_types_known : explicitTypes.all (fun p => p.1.isSome) = true := by decide
+
+/-! ### occurrences: counting children, merging samples -/
+
+theorem fold_nodup (xs : List Attr) : ∀ acc, NodupKeys acc → NodupKeys (xs.foldl addAttribute acc) := by
+  induction xs with
+  | nil => intro acc h; simpa using h
+  | cons x rest ih => intro acc h; simpa using ih _ (addAttribute_nodup x h)
+
+/-- **merged_bounds_sound.** Take any set of samples (occurrences of one element; each is the
+list of freshly built child attrs in document order, `min ≤ 1`, `max = 1`), run every one
+through `add_attribute` and merge the results with `reduce_attributes`.  Then the merge does
+not crash, and for every sample and every key the number of children with that key lies
+within `[min, max]` of the merged attr; a key that some sample lacks has `min = 0`. -/
+theorem merged_bounds_sound (samples : List (List Attr))
+    (hfresh : ∀ s ∈ samples, ∀ a ∈ s, a.min ≤ 1 ∧ a.max = 1)
+    (hlen : ∀ s ∈ samples, s.length ≤ maxsize) :
+    ∃ R, reduceAttributes (samples.map (fun s => s.foldl addAttribute [])) = some R ∧
+      ∀ s ∈ samples, ∀ k : Attr,
+        (0 < s.countP (fun x => x.same k) →
+          ∃ m, lookup R k = some m ∧ m.min ≤ s.countP (fun x => x.same k) ∧
+            s.countP (fun x => x.same k) ≤ m.max) ∧
+        (s.countP (fun x => x.same k) = 0 → ∀ m ∈ R, m.same k = true → m.min = 0) := by
+  have hn : ∀ c ∈ samples.map (fun s => s.foldl addAttribute []), NodupKeys c := by
+    intro c hc
+    simp only [List.mem_map] at hc
+    obtain ⟨s, _, rfl⟩ := hc
+    exact fold_nodup s [] (by simp [NodupKeys])
+  obtain ⟨R, hR, hadm⟩ := reduceAttributes_admits _ hn
+  refine ⟨R, hR, ?_⟩
+  intro s hs k
+  have hocc := hadm (s.foldl addAttribute []) (by simp only [List.mem_map]; exact ⟨s, hs, rfl⟩)
+  simp only [admitsAttrs, Bool.and_eq_true, List.all_eq_true] at hocc
+  have hcount := addAttribute_fold_count s (hfresh s hs) k []
+  simp only [lookup, List.find?_nil] at hcount
+  constructor
+  · intro hpos
+    have hne : ¬ s.countP (fun x => x.same k) = 0 := by omega
+    simp only [hne, if_false] at hcount
+    obtain ⟨r, hr, hmin, hmax⟩ := hcount
+    have hmem := List.mem_of_find?_eq_some hr
+    have hrk : r.same k = true := by simpa using List.find?_some hr
+    have h1 := hocc.1 r hmem
+    have hlk : lookup R k = R.find? (fun m => m.same r) := by
+      simp only [lookup]
+      congr 1
+      funext m
+      exact (same_congr_right m hrk).symm
+    cases hf : R.find? (fun m => m.same r) with
+    | none => simp [hf] at h1
+    | some m =>
+      simp only [hf, Attr.within, Bool.and_eq_true, decide_eq_true_eq] at h1
+      refine ⟨m, by rw [hlk, hf], by omega, ?_⟩
+      by_cases hc : s.countP (fun x => x.same k) = 1
+      · simp only [hc, if_true] at hmax; omega
+      · simp only [hc, if_false] at hmax
+        have := List.countP_le_length (p := fun x => x.same k) (l := s)
+        have := hlen s hs
+        omega
+  · intro hzero m hm hmk
+    simp only [hzero, if_true] at hcount
+    have hnone : ∀ a ∈ s.foldl addAttribute [], a.same k = false := by
+      intro a ha
+      have := List.find?_eq_none.1 hcount a ha
+      simpa using this
+    have h2 := hocc.2 m hm
+    simp only [Bool.or_eq_true, List.any_eq_true, decide_eq_true_eq] at h2
+    rcases h2 with ⟨a, ha, ham⟩ | h2
+    · have := same_trans ham hmk
+      simp [hnone a ha] at this
+    · exact h2
+
+/-- the hypotheses of `merged_bounds_sound` are met by real inputs: two samples, `a b a b`
+and `a c`, as `build_attr` makes them -/
+example :
+    let mk (n : String) : Attr := { tag := .element, name := n.toList, ns := none, index := 0, types := [], min := 1, max := 1 }
+    let samples := [[mk "a", mk "b", mk "a", mk "b"], [mk "a", mk "c"]]
+    (∀ s ∈ samples, ∀ a ∈ s, a.min ≤ 1 ∧ a.max = 1) ∧ (∀ s ∈ samples, s.length ≤ maxsize) := by
+  decide
 
 end Props.C13
